@@ -9,6 +9,7 @@ scenarios.
 from __future__ import annotations
 
 import ast
+import re
 from ..core import utext
 import itertools
 
@@ -146,6 +147,25 @@ def check_bonds(prog: Program, res: Result) -> None:
              "overlay change[BROKEN]/[FORMED]/[FLEETING]")
     K = "CondensedReactionGraph"
     fi = prog.resolve_method(K, "from_graphs")
+    # role names: the bond universe, the graph under construction, the loop
+    # variable over the bonds
+    from ..iso import rename_locals
+    table = {}
+    for n in ast.walk(fi.node):
+        if isinstance(n, ast.Assign) and len(n.targets) == 1 and isinstance(
+                n.targets[0], ast.Name):
+            v = norm(n.value)
+            if re.fullmatch(r"set\(\w+\.bonds\) \| set\(\w+\.bonds\)", v):
+                table[n.targets[0].id] = "bonds"
+            elif v in ("cls()", "CondensedReactionGraph()"):
+                table[n.targets[0].id] = "crg"
+    fi = rename_locals(fi, table)
+    table = {}
+    for n in ast.walk(fi.node):
+        if isinstance(n, ast.For) and norm(n.iter) in (
+                "bonds", "ts_graph.bonds") and isinstance(n.target, ast.Name):
+            table[n.target.id] = "bond"
+    fi = rename_locals(fi, table)
     loops = [n for n in ast.walk(fi.node) if isinstance(n, ast.For)
              and norm(n.iter) == "bonds"]
     if not loops:
